@@ -47,6 +47,27 @@ CLAIMED = {
              '(Aligner.align cases and the candidates of real end-to-end runs captured through COMA\'s extension mechanism); every record of every XMAP file of the four modes is checked from the file text. '
              'Pipeline theorems (C12_pairs_in_order_subrun for segments; resolver disjointness) are added as they close.',
         note=NOTE + 'End-to-end runs: Program(args, extensions) in subprocesses; independent CMAP/XMAP text parsers.', design='6 (C01)', technique='verified checker (Coq) evaluated on implementation outputs + pipeline correspondence + end-to-end oracle'),
+    'C14': dict(
+        text='Theorems in coq/props/C14.v over Core.chain (pre-order, O(n^2) DP with strict updates, first-best end, back-tracking) connected to the generic DP theorem: result = subsequence of the '
+             'stable pre-order + all empties; total (accumulated as the code does, in exact Q) defined and >= total of every admissible subsequence; no None join inside; half-overlap inequality on both axes and strands; '
+             'join <= 0 for sj >= 0, == 0 for contiguous joins. Tie: exhaustive join lattice, exhaustive small chains, random sets of 1-8 (+ up to 24) segments; exact-rational subset enumeration as oracle; '
+             'binary64 division handled by a strict/loose flag computed in exact rationals.',
+        note=NOTE + 'Float division in the join score: equality required where binary64 is exact, otherwise totals within 1e-9 relative (counted in evidence).', design='6 (C14)',
+        technique='Coq proof (generic DP optimality instantiated at Q) + exhaustive/random differential correspondence + brute-force oracle'),
+    'C16': dict(
+        text='Theorems in coq/props/C16.v over the models of vectorisePositions (generator with early return), blur, toRelativeGenomicPositions, createPeaks cut and selectPeaks: bit i set iff a label in bin i, '
+             'labels within [start,end] covered, blur length/bit characterisation, bin centre within res/2, top-N (descending, stable, nothing better left out), per-correlation argpartition cut harmless for any admissible cut (section argument, not an axiom). '
+             'Tie: exhaustive small vectors/blurs/peak lists + random, model in Coq vs the real functions.',
+        note=NOTE + 'numpy argpartition is an arbitrary admissible cut; heights/scores integer valued.', design='6 (C16)', technique='Coq proof + exhaustive small-case correspondence + oracle'),
+    'C18': dict(
+        text='Theorems in coq/props/C18.v over a text-level model of XmapReader.writeAlignments/readAlignments: number codecs (tenths, hundredths, truncation toward zero), pair-list codec, tab split/join, single line and whole file round trip '
+             'for any number of rows incl. 0 and 1, both strands, AlignedRest either; HitEnum text parses back to the runs. Tie: real writer text vs model text byte-wise on data lines; real reader vs model reader; Python round-trip oracle.',
+        note=NOTE + 'pandas dtype inference / NA handling relied on is listed in model/Xmap.v; values with one (coordinates) or two (confidence) decimals.', design='6 (C18)', technique='Coq codec proofs + differential correspondence on real writer/reader + oracle'),
+    'C19': dict(
+        text='Theorems in coq/props/C19.v over the model of AlignmentComparer/AlignmentRowComparer with difflib ratio as a Section variable (range, reflexivity; positivity symmetry for the swap clause): key partition and counts, bounds, reflexivity for every alignment incl. empty pair lists, swap. '
+             'Tie: exhaustive tiny sets + random sets with duplicate keys/labels, the recorded difflib ratios instantiate the variable; the hypotheses on ratio are themselves checked against difflib in Coq on exact rationals.',
+        note=NOTE + 'difflib.SequenceMatcher.ratio satisfies the stated hypotheses (checked per run; positivity symmetry only below difflib\'s autojunk threshold of 200 items).', design='6 (C19)',
+        technique='Coq proof with section hypotheses on difflib + differential correspondence + oracle'),
 }
 PENDING_REASON = 'check not built yet in this round (planned: DESIGN.md section 6); will be claimed once its model, theorems and correspondence run'
 
